@@ -82,6 +82,12 @@ impl Persister for FilePersister {
                 format!("{COMPONENT} (error: {error}) - failed to write data to file: {path}")
             })
             .map_err(|_| IggyError::CannotWriteToFile)?;
+        file.flush()
+            .await
+            .with_error_context(|error| {
+                format!("{COMPONENT} (error: {error}) - failed to flush data to file: {path}")
+            })
+            .map_err(|_| IggyError::CannotWriteToFile)?;
         Ok(())
     }
 
@@ -96,6 +102,12 @@ impl Persister for FilePersister {
             .await
             .with_error_context(|error| {
                 format!("{COMPONENT} (error: {error}) - failed to write data to file: {path}")
+            })
+            .map_err(|_| IggyError::CannotWriteToFile)?;
+        file.flush()
+            .await
+            .with_error_context(|error| {
+                format!("{COMPONENT} (error: {error}) - failed to flush data to file: {path}")
             })
             .map_err(|_| IggyError::CannotWriteToFile)?;
         Ok(())
